@@ -15,7 +15,9 @@ EXPLANATION = (
     "all change the sequence; the exception must have reached a handler that consulted the FMS policy.  Without the FMS the same fault "
     "must leave the mode function as an exception (nothing above may swallow it, including the NotifierDelay context manager) and no "
     "further callback may run.  C07.O3 the two policy functions (MagicRobot.onException, the selector's default) re-raise the active "
-    "exception before any other effect when isFMSAttached() is false and return normally when it is true, even if reporting fails."
+    "exception before any other effect when isFMSAttached() is false and return normally when it is true, even if reporting fails.  "
+    "C07.O5 on every fault path the driver station is asked for the FMS state after the fault (a flag cached at mode entry or at the "
+    "last connection change is stale when the FMS attaches in between)."
 )
 RULE = "one case = one (mode function, raising callback site, FMS flag, exit/configuration choices) path"
 EXHAUSTIVE = True
@@ -26,7 +28,8 @@ def check(ctx):
     for r, t in (("C07.O1", "callback sites enumerated from the source (floor 16)"),
                  ("C07.O2", "attached: sequence unchanged and loop continues; not attached: exception leaves the mode function, nothing else runs"),
                  ("C07.O3", "policy functions: re-raise first when FMS not attached, return normally when attached"),
-                 ("C07.O4", "nothing between the callback and startCompetition swallows the re-raised exception")):
+                 ("C07.O4", "nothing between the callback and startCompetition swallows the re-raised exception"),
+                 ("C07.O5", "the policy asks the driver station whether the FMS is attached after the fault, not before (no cached flag)")):
         ctx.rule(r, t)
     info, res = rr.analyse(ctx, fault=True)
     sites = {}
@@ -92,6 +95,25 @@ def check(ctx):
                 if k not in reported:
                     reported.add(k)
                     ctx.fail("C07.O2", f"{func}(): without the FMS, after {fk} raised the callbacks {after[:4]} still run before the exception propagates", site=site, key=f"C07.O2|after|{func}|{fk}")
+    # ---- O5 the FMS state that decides is read after the fault
+    n5 = 0
+    stale = {}
+    for func, w, per, pi in res:
+        if pi.fault is None:
+            continue
+        tr = pi.p.trace
+        at = next((j for j, e in enumerate(tr) if e is pi.fault[-1]), None)
+        if at is None:
+            continue
+        n5 += 1
+        asked = any(e.kind == "ext" and "isFMSAttached" in e.name for e in tr[at:])
+        if not asked:
+            stale.setdefault((func, rr.show_key(rr.faulted_key(pi))), rr.fault_site(pi))
+    for (func, fk), st in sorted(stale.items())[:6]:
+        ctx.fail("C07.O5", f"{func}(): after {fk} raised, the swallow-or-crash decision is taken without asking the driver station whether the FMS is attached: it uses a value sampled earlier, which is wrong whenever the FMS (dis)connects in between", site=st, key=f"C07.O5|{func}|{fk}")
+    if not stale:
+        ctx.ok("C07.O5", f"on all {n5} fault paths isFMSAttached() is called after the fault")
+    ctx.floor("fault paths checked for a fresh FMS query", n5, 70)
     ctx.cov["distinct_nontrivial"] = len({(func, rr.show_key(rr.faulted_key(pi)), tuple(pi.fms())) for func, w, per, pi in res if pi.fault is not None})
     ctx.cov["fault_paths_fms_attached"] = n_att
     ctx.cov["fault_paths_no_fms"] = n_na
